@@ -524,7 +524,7 @@ struct CArc \{
 
     inline CArc clone() const noexcept {
         CArc ret;
-        ret.instance = clone_fn(instance);
+        ret.instance = clone_fn ? clone_fn(instance) : instance;
         ret.clone_fn = clone_fn;
         ret.drop_fn = drop_fn;
         return ret;
